@@ -146,7 +146,7 @@ struct LimitGrid : GridBase {
           bool range_op = op == L_INSERT_RANGE || op == L_ASSIGN_RANGE || op == L_APPEND_RANGE || op == L_CTOR_RANGE;
           if (range_op && c > 300 && !(c > stmax() && c <= stmax() + 600)) continue;  // a range has a real length
           for (size_t pi = 0; pi < ps.size() && !g_cut; ++pi)
-            for (int kind = 0; kind < (range_op ? (c > 1000 ? 2 : 4) : 1) && !g_cut; ++kind) cell(op, size, spare, ps[pi], c, kind);
+            for (int kind = 0; kind < (range_op ? (c > 1000 ? 2 : 4) : (op == L_PUSH_M || op == L_INSERT_M) ? 2 : 1) && !g_cut; ++kind) cell(op, size, spare, ps[pi], c, kind);
         }
       }
     }
@@ -171,10 +171,14 @@ struct LimitGrid : GridBase {
     bool fits = result <= limit();
     if (op == L_RESERVE) fits = arg <= limit();
     if (op == L_AT) fits = false;
+    // kind 1 of the rvalue forms: the argument is an element of the vector itself, v.push_back(std::move(v[i])). Only where the call must fail:
+    // "contents exactly as before" then includes the element the argument refers to (where the call succeeds the element is legitimately moved from)
+    const bool alias_rvalue = (op == L_PUSH_M || op == L_INSERT_M) && kind == 1;
+    if (alias_rvalue && (fits || size == 0)) { destroy(b); cell_end<E>("C08"); --n_cells; return; }
     Snap before;
     long live_before = 0, blk_before = 0;
     if (!is_ctor) { before = snap(*b.obj); live_before = g_live_lib; blk_before = g_blk_live; }
-    set_op(limname(op), is_ctor ? "-" : state_class<Vec>(before), std::string(fits ? "fits" : "exceeds") + (c == 0 ? ",c=0" : c > stmax() ? ",c>max" : c >= stmax() - 1 ? ",c=max" : "") + (spare == 1 ? ",reserved" : spare == 2 ? ",tight" : ""),
+    set_op(limname(op), is_ctor ? "-" : state_class<Vec>(before), std::string(fits ? "fits" : "exceeds") + (c == 0 ? ",c=0" : c > stmax() ? ",c>max" : c >= stmax() - 1 ? ",c=max" : "") + (spare == 1 ? ",reserved" : spare == 2 ? ",tight" : "") + ((op == L_PUSH_M || op == L_INSERT_M) && kind == 1 ? ",argument=own-element" : ""),
            fmt("size=%ju pos=%ju count=%ju limit=%ju kind=%d", size, pos, c, limit(), kind));
     std::vector<Val> vals;
     bool vals_needed = op == L_INSERT_RANGE || op == L_INSERT_IL || op == L_ASSIGN_RANGE || op == L_ASSIGN_IL || op == L_APPEND_RANGE || op == L_APPEND_IL || op == L_CTOR_RANGE || op == L_CTOR_IL;
@@ -189,11 +193,18 @@ struct LimitGrid : GridBase {
     bool at_ok = false;
     switch (op) {
       case L_PUSH_C: window([&] { vp->push_back(*e); }); break;
-      case L_PUSH_M: window([&] { vp->push_back(std::move(*e)); }); break;
+      case L_PUSH_M:
+        if (alias_rvalue) window([&] { vp->push_back(std::move((*vp)[static_cast<SizeT>(size / 2)])); });
+        else window([&] { vp->push_back(std::move(*e)); });
+        break;
       case L_EMPLACE_BACK: window([&] { vp->emplace_back(x.key, x.pay); }); break;
       case L_EMPLACE: window([&] { auto it = vp->emplace(vp->begin() + pos, x.key, x.pay); ret = it - vp->begin(); }); exp = pos; break;
       case L_INSERT_C: window([&] { auto it = vp->insert(vp->begin() + pos, *e); ret = it - vp->begin(); }); exp = pos; break;
-      case L_INSERT_M: window([&] { auto it = vp->insert(vp->begin() + pos, std::move(*e)); ret = it - vp->begin(); }); exp = pos; break;
+      case L_INSERT_M:
+        if (alias_rvalue) window([&] { auto it = vp->insert(vp->begin() + pos, std::move((*vp)[static_cast<SizeT>(size - 1)])); ret = it - vp->begin(); });
+        else window([&] { auto it = vp->insert(vp->begin() + pos, std::move(*e)); ret = it - vp->begin(); });
+        exp = pos;
+        break;
       case L_INSERT_N: window([&] { auto it = vp->insert(vp->begin() + pos, static_cast<SizeT>(c), *e); ret = it - vp->begin(); }); exp = pos; break;
       case L_INSERT_RANGE: with_range<E>(kinds[kind], vals, [&](auto f, auto l) { window([&] { auto it = vp->insert(vp->begin() + pos, f, l); ret = it - vp->begin(); }); }); exp = pos; break;
       case L_INSERT_IL: with_il(vals, [&](std::initializer_list<E> il) { window([&] { auto it = vp->insert(vp->begin() + pos, il); ret = it - vp->begin(); }); }); exp = pos; break;
